@@ -10,6 +10,7 @@ involved (outside the property for this router).
 import Restful.Lemmas.Tokenize
 import Restful.Lemmas.JsrSlash
 import Restful.Spec.Slash
+import Restful.Lemmas.StateShape
 namespace Restful
 namespace Props
 variable (E : ReEnv)
@@ -97,6 +98,12 @@ example : Jsr.slashSafe ⟨fun _ _ => true, fun _ s => !s.isEmpty⟩
     subst this
     simp only [List.mem_cons, List.mem_singleton, List.not_mem_nil, or_false] at ht
     rcases ht with rfl | rfl <;> simp [Jsr.tokSlashSafe]
+
+/-! The frame condition (Lemmas/StateShape.lean): the code has exactly the state this property's model
+    accounts for — no further package-level variable, struct type or field; constants as modelled. -/
+-- also: Restful.StateShape.globals_shape
+-- also: Restful.StateShape.consts_shape
+-- also: Restful.StateShape.routing_shape
 
 end Props
 end Restful
